@@ -1,6 +1,7 @@
 package webrtc
 
 import (
+	"bytes"
 	"crypto"
 	"crypto/ecdsa"
 	"crypto/elliptic"
@@ -30,6 +31,8 @@ import (
 // encode/decode = whatever the type itself offers (json.Marshal/json.Unmarshal incl. custom
 // MarshalJSON/MarshalText, MarshalText/UnmarshalText called directly, String()/NewXxx(string) for the
 // state enums, json.Marshal/UnmarshalStatsJSON for Stats, PEM()/CertificateFromPEM for certificates).
+// Certificates are compared by bytes (x509 DER + PKCS#8 private key read from the fields); Certificate.Equals is only a
+// secondary check and is itself judged against that byte identity on identical / different-key / different-x509 pairs.
 // The tag→Go type table for Stats below is written from the W3C stats dictionary names, not from stats.go's switch.
 
 // ---------------------------------------------------------------- enum table
@@ -733,21 +736,91 @@ func (c *c38Checker) enum(e c38Enum) { //nolint:cyclop,gocognit
 
 // ---------------------------------------------------------------- certificates
 
+// c38CertIdentity is the identity of a Certificate as this monitor sees it: the DER bytes of the X.509 part and the
+// PKCS#8 DER of the private key, both read from the struct fields with the standard library only. Nothing of
+// certificate.go (Equals, PEM, GetFingerprints ...) takes part, so it can judge all of them.
+func c38CertIdentity(c *Certificate) (certDER, keyDER []byte, err error) {
+	defer func() { // a mangled key (nil D, nil curve ...) makes the marshaller panic; that is "no usable key"
+		if p := recover(); p != nil {
+			err = fmt.Errorf("panic while marshalling the private key: %v", p)
+		}
+	}()
+	if c == nil || c.x509Cert == nil {
+		return nil, nil, fmt.Errorf("no x509 certificate")
+	}
+	if c.privateKey == nil {
+		return c.x509Cert.Raw, nil, fmt.Errorf("no private key")
+	}
+	keyDER, err = x509.MarshalPKCS8PrivateKey(c.privateKey)
+
+	return c.x509Cert.Raw, keyDER, err
+}
+
+// certEquals judges Certificate.Equals itself (both directions) on a pair whose relation is established by
+// c38CertIdentity: identical identity ⇒ true, anything else ⇒ false. `intended` is the relation the pair was built
+// for; a pair that turns out otherwise is only counted (the verdict always follows the observed identity).
+func (c *c38Checker) certEquals(idx int, keyName, intended string, a, b *Certificate, detail map[string]any) {
+	run := c.run
+	ax, ak, ea := c38CertIdentity(a)
+	bx, bk, eb := c38CertIdentity(b)
+	if ea != nil || eb != nil {
+		run.Count("model_divergence", 1)
+		run.Seen("model_divergence_causes", "equals-pair-without-identity:"+intended)
+
+		return
+	}
+	sameX, sameK := bytes.Equal(ax, bx), bytes.Equal(ak, bk)
+	relation := "identical"
+	switch {
+	case !sameK && sameX:
+		relation = "different-key-same-x509"
+	case !sameK:
+		relation = "different-key"
+	case !sameX:
+		relation = "different-x509"
+	}
+	if relation != intended {
+		run.Count("model_divergence", 1)
+		run.Seen("model_divergence_causes", "equals-pair-relation-unexpected:"+intended+"->"+relation)
+	}
+	want := sameX && sameK
+	ab, ba := a.Equals(*b), b.Equals(*a)
+	run.Count("equals_pairs_judged", 1)
+	run.Seen("equals_pair_relations", fmt.Sprintf("%s:%s=>%v", relation, keyName, want))
+	if ab != want || ba != want {
+		d := map[string]any{"relation": relation, "keys": keyName, "expected_equals": want, "a_equals_b": ab, "b_equals_a": ba,
+			"a_x509_der": fmt.Sprintf("%x", ax), "b_x509_der": fmt.Sprintf("%x", bx), "same_x509_der": sameX, "same_pkcs8_private_key": sameK}
+		for k, v := range detail {
+			d[k] = v
+		}
+		run.Violation("certificate-equals-wrong:"+relation+":"+keyName,
+			fmt.Sprintf("Certificate.Equals returns %v/%v for a pair of %s certificates (%s); x509 DER equal: %v, PKCS#8 private key equal: %v",
+				ab, ba, relation, keyName, sameX, sameK), idx, d)
+	}
+}
+
 func (c *c38Checker) certificates(idx int, r *kit.Rand) { //nolint:cyclop
 	run := c.run
 	type keyed struct {
 		name string
 		key  crypto.PrivateKey
+		alt  crypto.PrivateKey // a second, different key of the same kind (only for judging Equals)
 	}
 	var keys []keyed
 	if k, err := ecdsa.GenerateKey(elliptic.P256(), crand.Reader); err == nil {
-		keys = append(keys, keyed{"ecdsa-p256", k})
+		if k2, err := ecdsa.GenerateKey(elliptic.P256(), crand.Reader); err == nil {
+			keys = append(keys, keyed{"ecdsa-p256", k, k2})
+		}
 	}
 	if k, err := ecdsa.GenerateKey(elliptic.P384(), crand.Reader); err == nil {
-		keys = append(keys, keyed{"ecdsa-p384", k})
+		if k2, err := ecdsa.GenerateKey(elliptic.P384(), crand.Reader); err == nil {
+			keys = append(keys, keyed{"ecdsa-p384", k, k2})
+		}
 	}
 	if k, err := rsa.GenerateKey(crand.Reader, 2048); err == nil {
-		keys = append(keys, keyed{"rsa-2048", k})
+		if k2, err := rsa.GenerateKey(crand.Reader, 2048); err == nil {
+			keys = append(keys, keyed{"rsa-2048", k, k2})
+		}
 	}
 	if len(keys) != 3 {
 		run.Inconclusive("key-generation-failed")
@@ -755,7 +828,9 @@ func (c *c38Checker) certificates(idx int, r *kit.Rand) { //nolint:cyclop
 		return
 	}
 	perKey := kit.N(12, 150)
-	for _, k := range keys {
+	for ki, k := range keys {
+		other := keys[(ki+1)%len(keys)] // a key of another kind / curve
+		var prev *Certificate           // previous certificate over the same key
 		for j := 0; j < perKey; j++ {
 			var cert *Certificate
 			var err error
@@ -807,6 +882,25 @@ func (c *c38Checker) certificates(idx int, r *kit.Rand) { //nolint:cyclop
 
 				continue
 			}
+			// DECIDING: identity by bytes, read from the fields (no library code shared with PEM/CertificateFromPEM/Equals)
+			ox, ok, oerr := c38CertIdentity(cert)
+			gx, gk, gerr := c38CertIdentity(got)
+			identical := false
+			switch {
+			case oerr != nil: // PEM() just marshalled this very key, so this cannot happen; not a property matter
+				run.Count("model_divergence", 1)
+				run.Seen("model_divergence_causes", "original-without-identity:"+k.name)
+			case gx == nil || !bytes.Equal(ox, gx):
+				detail["x509_der"] = fmt.Sprintf("%x vs %x", ox, gx)
+				run.Violation("certificate-x509-differs:"+k.name, "the X.509 DER of CertificateFromPEM(PEM()) differs from the original ("+k.name+")", idx, detail)
+			case gerr != nil || !bytes.Equal(ok, gk):
+				// private key material stays out of the replay file: lengths and the comparison of the public halves only
+				detail["private_key"] = fmt.Sprintf("PKCS#8 DER differs (len %d vs %d, marshal error of the re-imported key: %v)", len(ok), len(gk), gerr)
+				run.Violation("certificate-private-key-differs:"+k.name, "the private key of CertificateFromPEM(PEM()) differs from the original ("+k.name+")", idx, detail)
+			default:
+				identical = true
+			}
+			// SECONDARY: the statement names Equals
 			if !cert.Equals(*got) || !got.Equals(*cert) {
 				run.Violation("certificate-not-equal:"+k.name, "CertificateFromPEM(PEM()) is not Equals to the original ("+k.name+")", idx, detail)
 			}
@@ -825,6 +919,32 @@ func (c *c38Checker) certificates(idx int, r *kit.Rand) { //nolint:cyclop
 				run.Count("model_divergence", 1)
 				run.Seen("model_divergence_causes", "pem-not-a-fixpoint:"+k.name)
 			}
+
+			// Equals is what the statement words the round trip with, so Equals itself is judged against the byte
+			// identity: it must say true exactly for identical (x509 DER, private key) pairs.
+			ed := map[string]any{"key": k.name, "how": how}
+			self := *cert
+			c.certEquals(idx, k.name, "identical", cert, &self, ed)
+			if identical {
+				c.certEquals(idx, k.name, "identical", cert, got, ed)
+			}
+			if prev != nil { // same key, another certificate
+				c.certEquals(idx, k.name, "different-x509", cert, prev, ed)
+			}
+			swapped := CertificateFromX509(k.alt, cert.x509Cert) // same certificate, another key of the same kind
+			c.certEquals(idx, k.name, "different-key-same-x509", cert, &swapped, ed)
+			foreign := CertificateFromX509(other.key, cert.x509Cert) // same certificate, key of another kind
+			c.certEquals(idx, k.name+"/"+other.name, "different-key-same-x509", cert, &foreign, ed)
+			if j == 0 {
+				// GenerateCertificate twice over one key, and once over another key of the same kind
+				if again, err := GenerateCertificate(k.key); err == nil {
+					c.certEquals(idx, k.name, "different-x509", cert, again, ed)
+				}
+				if altCert, err := GenerateCertificate(k.alt); err == nil {
+					c.certEquals(idx, k.name, "different-key", cert, altCert, ed)
+				}
+			}
+			prev = cert
 		}
 	}
 }
